@@ -103,6 +103,11 @@ QUERIES = [
     ("L.head(3, npartitions=-1, compute=False)", True, 1, None, "head"),
     ("L.repartition(npartitions=2).a", True, 1, None, "repartition"),
     ("L.sort_values('a')", False, 0, None, "sort-1part"),
+    # tail / head of a sort are rewritten into n-last / n-first selections (no quantiles involved): a tree reduction again
+    ("L.sort_values('a').tail(2, compute=False).c", False, 1, False, "sort-tail"),
+    ("L.sort_values('a').head(2, compute=False).c", False, 1, False, "sort-tail"),
+    ("L.sort_values('a', ascending=False).tail(1, compute=False)", False, 1, False, "sort-tail"),
+    ("L.nsmallest(2, 'c')", False, 1, None, "nlargest"),
 ]
 
 
@@ -162,6 +167,14 @@ def _src(name, cols, n, cuts, known):
     return Src(name, n, cols, nparts, how="delayed", cuts=cuts, divisions=divs)
 
 
+def _distinct_keys(env):
+    """sort_values is not stable by default: which of two rows with equal keys comes first is unspecified, so the sort keys are assumed distinct"""
+    import z3
+
+    vals = [t[4] for t in env.tags.values() if t[0] == "L" and t[1] == "a"]
+    return [z3.Distinct(*vals)] if len(vals) > 1 else []
+
+
 def programs(tier):
     import dask_expr as dx
 
@@ -184,12 +197,18 @@ def programs(tier):
                     rc = rl[ci % len(rl)]
                     srcs.append(_src("R", RCOLS, 3, rc, known))
                 progs.append(Program(text, srcs, ordered=ordered, family="F02", note=f"{tag}/{'known' if known else 'unknown'}", env_globals={"dx": dx},
-                                     known=None))
+                                     known=None, assume=_distinct_keys if tag == "sort-tail" else None))
+        # more partitions than the default split_every (8): the reduction tree gets a combine level between chunk and aggregate
+        # (group-by / unique / value_counts terms over nine rows are beyond the solver budget: their deep trees are C10's split_every=2 grids)
+        if tag in ("nlargest", "set_index-head", "reduction", "sort-tail") and arity == 1 and "nunique" not in text:
+            deep = tuple(range(10))  # nine single-row partitions
+            progs.append(Program(text, [_src("L", LCOLS, 9, deep, False)], ordered=ordered, family="F02", note=f"{tag}/deep-tree", env_globals={"dx": dx}, known=None,
+                                 assume=_distinct_keys if tag == "sort-tail" else None))
         # from_pandas layouts as well (sorted concrete index)
         for nparts in (1, 2, 3):
             srcs = [Src("L", n, LCOLS, nparts)] + ([Src("R", 3, RCOLS, max(1, nparts - 1))] if arity == 2 else [])
             if tag in ("loc",):
                 continue
             progs.append(Program(text, srcs, ordered=ordered, family="F02", note=f"{tag}/from_pandas", env_globals={"dx": dx},
-                                 known=None))
+                                 known=None, assume=_distinct_keys if tag == "sort-tail" else None))
     return progs
